@@ -38,6 +38,7 @@ Inductive event :=
 | ECopy (src tgt : Z)                (* backend.copy_checkpoint *)
 | EStart (i : Z) (from : option Z)   (* backend.start_trial *)
 | EResume (i : Z)                    (* backend.resume_trial (accepted) *)
+| ESchedule (i : Z)                  (* backend._schedule: the job of trial i is launched *)
 | ERemovable (i : Z)                 (* scheduler.trials_checkpoints_can_be_removed() listed i *)
 | EStopAll                           (* the finally block: backend.stop_all *)
 | EError.                            (* an assertion of the backend failed: the loop is left *)
@@ -56,6 +57,7 @@ Definition event_eqb (a b : event) : bool :=
   | ECopy a1 b1, ECopy a2 b2 => Z.eqb a1 a2 && Z.eqb b1 b2
   | EStart i f, EStart i' f' => Z.eqb i i' && opt_eqb Z.eqb f f'
   | EResume i, EResume i' => Z.eqb i i'
+  | ESchedule i, ESchedule i' => Z.eqb i i'
   | ERemovable i, ERemovable i' => Z.eqb i i'
   | EStopAll, EStopAll => true
   | EError, EError => true
@@ -86,17 +88,17 @@ Definition set_status (b : backend) (i : Z) (s : tstatus) : backend :=
 
 Definition new_trial_id (b : backend) : Z := Z.of_nat (length (ids b)).
 
-(* start_trial: copy_checkpoint(src, new id) BEFORE the job is scheduled *)
+(* start_trial: copy_checkpoint(src, new id) BEFORE the job is scheduled (_schedule) *)
 Definition b_start (b : backend) (from : option Z) : backend * list event :=
   let tid := new_trial_id b in
   ({| ids := ids b ++ [tid]; stat := (tid, Running) :: stat b; deleted := deleted b |},
-   EStart tid from :: match from with Some j => [ECopy j tid] | None => [] end).
+   EStart tid from :: match from with Some j => [ECopy j tid; ESchedule tid] | None => [ESchedule tid] end).
 
 (* resume_trial: assert trial_id < len(trial_ids); assert status == paused *)
 Definition b_resume (b : backend) (i : Z) : option (backend * list event) :=
   if Z.leb 0 i && Z.ltb i (new_trial_id b) then
     match status_of (stat b) i with
-    | Some Paused => Some (set_status b i Running, [EResume i])
+    | Some Paused => Some (set_status b i Running, [EResume i; ESchedule i])
     | _ => None
     end
   else None.
